@@ -76,7 +76,20 @@ def register(reg):
     k.ens("truthful-columns", lambda c: SV(TBool, c.result.z == V.rcols(bsem_rows(c, c.self, c.lhs, c.rhs))))
 
     # ---------------------------------------------------------------- triviality flags
+    # definitional clauses: the global definitions of these pure attributes (contracts/apply.py: attr_axioms) are exactly
+    # what the property bodies are proved to compute
+    def marker_def(attr):
+        def f(c):
+            tgt = c.attr(c.self, "target")
+            return SV(TBool, z3.Implies(c.ex.types.is_instance_z(c.self.z, c.ex.repo.cls("MarkerRelation")), c.result.z == c.attr(tgt, attr).z))
+        return f
+
+    for attr in ("min_rows", "max_rows", "columns"):
+        reg.contracts[f"_marker_relation:MarkerRelation.{attr}"].ens(f"is-the-targets-{attr}", marker_def(attr))
     k = reg.contract("_relation:BaseRelation.is_join_identity", attr=True, properties=P)
+    k.ens("definition", lambda c: SV(TBool, c.result.z == z3.And(c.attr(c.self, "columns").z == smt.EMPTY_TAGS,
+                                                                 c.attr(c.self, "max_rows").z == smt.OptInt.oi_some(z3.IntVal(1)), c.attr(c.self, "min_rows").z == 1)))
     k.ens("flag-implies-content", lambda c: SV(TBool, z3.Implies(c.result.z, V.rows(c.self.z) == V.RUNIT)))
     k = reg.contract("_relation:BaseRelation.is_trivial", attr=True, properties=P)
+    k.ens("definition", lambda c: SV(TBool, c.result.z == z3.Or(c.attr(c.self, "is_join_identity").z, c.attr(c.self, "max_rows").z == smt.OptInt.oi_some(z3.IntVal(0)))))
     k.ens("flag-implies-content", lambda c: SV(TBool, z3.Implies(c.result.z, z3.Or(V.rows(c.self.z) == V.RUNIT, V.rlen(V.rows(c.self.z)) == 0))))
